@@ -2,6 +2,7 @@ import Driver.Util
 import Helm.Model.Values
 import Helm.Model.Strvals
 import Helm.Model.Options
+import Helm.Lemmas.StrvalsPath
 open Lean Helm.Values
 namespace Driver.Values
 
@@ -74,6 +75,14 @@ def run (op : String) (j : Json) : Option Json :=
   | "strvals" =>
     let (t, e) := Helm.Strvals.parseInto (modeOf j) (str j "s").toList (toTbl (obj j "dest"))
     some <| Json.mkObj [("data", ofTbl t), ("err", jstr (errName e))]
+  | "pathExpr" =>
+    -- the spec side of theorem set_roundtrip: the escaped rendering and the expected result
+    let ks := (strs j "ks").map (·.toList)
+    let v := (str j "v").toList
+    let dest := toTbl (obj j "dest")
+    let m := modeOf j
+    some <| Json.mkObj [("expr", jchars (Helm.Strvals.pathExpr ks v)),
+      ("expected", ofTbl (Helm.Strvals.setPath ks dest (Helm.Strvals.reader m v)))]
   | "mergeValues" =>
     let o : Helm.Options.Opts := {
       files := (arr j "files").map toTbl, json := (arr j "json").map toTbl,
